@@ -13,7 +13,8 @@ ALPHA = ['a', '=', ' ', '"', "'", '2', '5', '0', '.']
 RULE = ('replies produced by a reference encoder (250-k=v … 250 OK; 250+k=… data block with dot-stuffing; GETCONF forms 250 K / 250 K=v / '
         'repeated 250-K=v) for: every single value of length <= N over {a,=,space,",\',2,5,0,.} (N=3 quick, 5 thorough) through get_info_single '
         'and get_conf_single; random key sets with random values through get_info; data blocks of 0..6 lines incl. lines that start with "." or '
-        'look like key=value or status lines; options with 0..5 values through get_conf. non-trivial = value contains one of = space quote or the '
+        'look like key=value or status lines; options with 0..5 values through get_conf; a quarter of the random cases with an asynchronous event '
+        '(single-line, multi-line, data-block) sent between the command and its reply. non-trivial = value contains one of = space quote or the '
         'reply has more than one line; distinct = distinct (call, reply) pairs')
 TRUSTED = ["the reference encoder of GETINFO/GETCONF replies (harness/props/c13.py:encode_*; Lean: Props/C13 `infoText`, `confText`)",
            "C01's refinement for the step from reply bytes to reply text (the driver runs the control-connection model on the bytes)"]
@@ -67,6 +68,17 @@ def gen_cases(rng, tier):
 
     def text(maxlen=8):
         return ''.join(rng.choice(ALPHA + ['b', 'O', 'K', '-', '+', 'k']) for _ in range(rng.choice([0, 1, 2, 3, 5, maxlen])))
+    for c in corpus():
+        for p in PRELUDES:
+            yield dict(c, prelude=p)
+    for c in plain_cases(rng, count, text):
+        # Tor may send an asynchronous event between the command and its reply: the result is the same
+        if rng.random() < 0.25:
+            c['prelude'] = rng.choice(PRELUDES)
+        yield c
+
+
+def plain_cases(rng, count, text):
     for _ in range(count):
         r = rng.random()
         if r < 0.35:
@@ -83,7 +95,16 @@ def gen_cases(rng, tier):
             yield {'call': rng.choice(['getconf', 'getconf1']), 'keys': [k], 'form': 'conf', 'values': vals}
 
 
+PRELUDES = ['650 FOO x\r\n', '650-CONF_CHANGED\r\n650-SocksPort=9999\r\n650 OK\r\n', '650+NS\r\nr a b\r\n.x\r\n.\r\n650 OK\r\n',
+            '650-A=1\r\n650 B=2\r\n650 CIRC 1 BUILT\r\n']
+
+
 def reply_bytes(c):
+    """what Tor sends after the command: an asynchronous event it may emit first (`prelude`), then the reply"""
+    return c.get('prelude', '') + reply_only(c)
+
+
+def reply_only(c):
     if c['form'] == 'lines':
         return encode_info(list(zip(c['keys'], c['values'])))
     if c['form'] == 'block':
@@ -186,7 +207,7 @@ def run_cases(cases, drv, tier):
         spec = expected(c)
         allv = c.get('values', []) + c.get('lines', []) + [c.get('first', '')]
         nontriv = any(ch in v for v in allv for ch in '= "\'') or len(allv) > 2
-        tags = [c['call'], c['form'], 'inH' if in_h(c) else 'outsideH']
+        tags = [c['call'], c['form'], 'inH' if in_h(c) else 'outsideH', 'after-event' if c.get('prelude') else 'reply-only']
         res.append(Result(c, im, model, spec, in_h=in_h(c), nontrivial=nontriv, tags=tags))
     return res
 
